@@ -838,9 +838,9 @@ theorem codegen_perm_eq_mapTypes (a a' : AS) (hw : WfAS a) (hp : PermOf a a')
   exact codegen_respects_field_renumbering
     (fieldIso_mapFields _ _ (mapTypes_fieldOrder_perm a a' hw hp)) cs o queryText doc
 
-/-! ## the statement that is left open (NOT proved)
+/-! ## the statement proved in `Proofs/C07PermCodegenE.lean` (`codegen_iso_perm : CodegenIsoPermStatement`)
 
-The full stretch goal, as a type-checked `Prop` (a *definition*, nothing is asserted): the modules generated from the
+The full goal, as a type-checked `Prop` (a *definition* here; the proof is `C07P.codegen_iso_perm`, P31): the modules generated from the
 two schemas agree up to the order of the items and of the variants of tagged enums.  By `codegen_perm_eq_mapTypes`
 it only concerns `Schema.mapTypes`. -/
 
@@ -863,7 +863,7 @@ def ModuleEqv (m m' : Module) : Prop :=
   m.query = m'.query ∧ m.queryInclude = m'.queryInclude ∧ m.useSerde = m'.useSerde ∧ m.implFor = m'.implFor ∧
   ItemsEqv m.items m'.items
 
-/-- **open**: `codegen_iso_perm` — stated, not proved (see the header) -/
+/-- the statement of `codegen_iso_perm` (proved in `Proofs/C07PermCodegenE.lean`) -/
 def CodegenIsoPermStatement : Prop :=
   ∀ (a a' : AS), WfAS a → PermOf a a' → ∀ (cs : CaseFns) (o : Options) (queryText : String) (doc : QDoc)
     (ms : List Module), Codegen.generate a.toSchema cs o queryText doc = .ok ms →
